@@ -2252,9 +2252,12 @@ def generate(mode, out_path, vacuity_props=None, force_stub=()):
         report['files'].append({'module': mp, 'path': os.path.relpath(f, REPO),
                                 'sha256': hashlib.sha256(raw.encode()).hexdigest(),
                                 'lines': raw.count('\n')})
+    # a contracted function that no longer exists (renamed / folded into another one): its clauses cannot be checked; the
+    # properties they carry are undecided by the proof (the runner then explores the real code), everything else is verified
     missing = sorted(set(contracts) - used)
-    if missing:
-        raise GenError('contracted function(s) not found in /repo (lost anchor): %s' % ', '.join(missing))
+    report['missing_contracted'] = {q: sorted(set(pp for cl in contracts[q].clauses for pp in cl.props)
+                                              | set(pp for lc in contracts[q].loops.values() for cl in lc.clauses for pp in cl.props))
+                                    for q in missing}
 
     def emit(mp):
         children = [m for m, _ in mods if m.startswith(mp + '::') and '::' not in m[len(mp) + 2:]]
